@@ -28,6 +28,48 @@ pub fn run(ctx: &mut Ctx) {
         }
         return;
     }
+    if wl == "file" {
+        // VERIF_DBG_FILE=<replay.json>: re-run the problem/settings pair stored anywhere inside it, verbosely;
+        // VERIF_DBG_SET="key=value,..." overrides settings
+        let path = std::env::var("VERIF_DBG_FILE").expect("VERIF_DBG_FILE");
+        let v: serde_json::Value = serde_json::from_str(&std::fs::read_to_string(path).unwrap()).unwrap();
+        fn find<'a>(v: &'a serde_json::Value, key: &str) -> Option<&'a serde_json::Value> {
+            match v {
+                serde_json::Value::Object(o) => {
+                    if let Some(x) = o.get(key) {
+                        if x.is_object() {
+                            return Some(x);
+                        }
+                    }
+                    o.values().find_map(|x| find(x, key))
+                }
+                serde_json::Value::Array(a) => a.iter().find_map(|x| find(x, key)),
+                _ => None,
+            }
+        }
+        let p = problem::Problem::from_json(find(&v, "problem").or_else(|| find(&v, "base")).expect("no problem in file")).expect("unparsable problem");
+        let mut sj = find(&v, "settings").cloned().unwrap_or_else(|| problem::settings_json(&vkit::gen::default_settings()));
+        if let Ok(ov) = std::env::var("VERIF_DBG_SET") {
+            for kv in ov.split(',') {
+                let (k, val) = kv.split_once('=').unwrap();
+                sj[k] = serde_json::from_str(val).unwrap_or_else(|_| serde_json::Value::String(val.to_string()));
+            }
+        }
+        if sj["time_limit"].is_null() {
+            sj["time_limit"] = serde_json::json!(1e300);
+        }
+        let mut st: clarabel::solver::DefaultSettings<f64> = serde_json::from_value(sj).expect("settings");
+        st.time_limit = if st.time_limit >= 1e300 { f64::INFINITY } else { st.time_limit };
+        st.verbose = true;
+        let (r, ev, cones) = problem::run_traced(&p, &st);
+        let r = r.unwrap();
+        println!("status {} iters {} internal cones {}", problem::status_name(r.status), r.iterations, problem::cones_json(&cones));
+        for e in &ev {
+            let nrm = e.x.iter().chain(&e.s).chain(&e.z).fold(0.0f64, |m, v| m.max(v.abs()));
+            println!("it {:3} {:?} a {:.2e} tau {:.3e} kap {:.3e} mu {:.3e} |xsz| {:.2e} pres {:.2e} dres {:.2e} bz {:.3e} qx {:.3e} {}", e.iterations, e.kind, e.step_length, e.τ, e.κ, e.μ, nrm, e.res_primal, e.res_dual, e.dot_bz, e.dot_qx, problem::status_name(e.status));
+        }
+        return;
+    }
     if wl == "C05r" {
         crate::c05::dbg_repeat(ctx.seed, case);
         return;
